@@ -3,6 +3,7 @@ package vc
 import (
 	"fmt"
 	"go/types"
+	"sort"
 	"strings"
 
 	"golang.org/x/tools/go/ssa"
@@ -50,7 +51,9 @@ func (f *Frame) call(ins ssa.CallInstruction, st State) (State, Val) {
 	if cl, ok := f.closures[fv.T.S]; ok {
 		return f.callFunction(cl.fn, args, cl.bindings, sig, st, ins)
 	}
-	// callback parameter: pure application model
+	// callback parameter: pure application model (closures of this frame that
+	// have contracts are described to the model first)
+	f.closureSummariesAll(st)
 	return f.callbackCall(fv.T, args, sig, st, ins)
 }
 
@@ -1167,6 +1170,23 @@ func (f *Frame) closureSummaries(args []Val, st State) {
 			continue
 		}
 		gfc := f.w.ContractOf(cl.fn)
+		var recvName string
+		var recvVal *Val
+		var recvType types.Type
+		if gfc == nil && strings.HasPrefix(cl.fn.Synthetic, "bound method wrapper") && len(cl.fn.FreeVars) == 1 {
+			// method value x.m: described by the contract of the method m with receiver x
+			if obj, ok := cl.fn.Object().(*types.Func); ok {
+				if m := f.w.Prog.FuncValue(obj); m != nil {
+					gfc = f.w.ContractOf(m)
+					if bv, ok := cl.bindings[cl.fn.FreeVars[0]]; ok && bv.Loc == nil && len(bv.Tup) == 0 && len(m.Params) > 0 {
+						recvName = m.Params[0].Name()
+						recvType = m.Params[0].Type()
+						v := bv
+						recvVal = &v
+					}
+				}
+			}
+		}
 		if gfc == nil || gfc.Inline || gfc.ModAll || len(gfc.Modifies) > 0 {
 			continue
 		}
@@ -1196,7 +1216,21 @@ func (f *Frame) closureSummaries(args []Val, st State) {
 				vars[gfc.Params[i].Name] = SVal{T: q, Go: p.Type()}
 			}
 		}
+		if recvVal != nil {
+			if recvName != "" && recvName != "_" {
+				vars[recvName] = SVal{T: recvVal.T, Go: recvType}
+			}
+			// contract header names of the method: (recv) params...; wrapper params are the method's without the receiver
+			for i, p := range cl.fn.Params {
+				if i < len(gfc.Params) && gfc.Params[i].Name != "" && gfc.Params[i].Name != "_" {
+					vars[gfc.Params[i].Name] = SVal{T: qv[i], Go: p.Type()}
+				}
+			}
+		}
 		for fv, bv := range cl.bindings {
+			if recvVal != nil {
+				break
+			}
 			pt, ok := fv.Type().Underlying().(*types.Pointer)
 			if !ok {
 				if bv.Loc == nil && len(bv.Tup) == 0 {
@@ -1219,10 +1253,12 @@ func (f *Frame) closureSummaries(args []Val, st State) {
 		if gfc.NoPanic || gfc.Pure {
 			vc.Assume(Forall(qv, Not(panicked), []Term{panicked}))
 		}
+		pats := [][]Term{{panicked}}
 		for i := 0; i < sig.Results().Len(); i++ {
 			t := sig.Results().At(i).Type()
 			so := f.w.Sorts.SortOf(t)
 			r := App(f.w.AppFun("app", sorts, so, i), so, as...)
+			pats = append(pats, []Term{r})
 			sv := SVal{T: r, Go: t}
 			vars[fmt.Sprintf("result%d", i)] = sv
 			if sig.Results().Len() == 1 {
@@ -1265,6 +1301,21 @@ func (f *Frame) closureSummaries(args []Val, st State) {
 		}
 		vc.Trusted["callbacks are pure, deterministic and do not depend on state the callee changes (closure summary of "+fnDisplay(cl.fn)+")"] = true
 		vc.Comment("closure summary of " + fnDisplay(cl.fn))
-		vc.Assume(Implies(st.PC, Forall(qv, Implies(And(ante...), And(posts...)), []Term{panicked})))
+		// not guarded by the path condition: a fact about the closure in this heap, needed on every later path
+		vc.Assume(Forall(qv, Implies(And(ante...), And(posts...)), pats...))
 	}
+}
+
+// closureSummariesAll emits the summary of every closure created in this frame.
+func (f *Frame) closureSummariesAll(st State) {
+	var keys []string
+	for k := range f.closures {
+		keys = append(keys, k)
+	}
+	sort.Strings(keys)
+	var vals []Val
+	for _, k := range keys {
+		vals = append(vals, Val{T: Term{k, SInt}})
+	}
+	f.closureSummaries(vals, st)
 }
